@@ -244,4 +244,63 @@ MUTANTS = [
 """,
          new="""            let _ = (argument_node, expected_argument_kind, &cache);
 """),
+
+    # ---------------- C09
+    dict(id="c09-merge-interface-first-test-swapped", prop="C09", expect="R09.1|merge_interface|exports|keep", file="crates/wac-types/src/aggregator.rs",
+         old="""                if checker
+                    .is_subtype(*source_kind, types, target_kind, &self.types)
+                    .is_ok()
+                {
+                    // Keep track that the source type should be replaced with the""",
+         new="""                if checker
+                    .is_subtype(target_kind, &self.types, *source_kind, types)
+                    .is_ok()
+                {
+                    // Keep track that the source type should be replaced with the"""),
+    dict(id="c09-version-compare-flipped", prop="C09", expect="R09.3|comparison", file="crates/wac-types/src/aggregator.rs",
+         old="""            if new_version > existing_version {""", new="""            if new_version < existing_version {"""),
+    dict(id="c09-value-merge-one-direction", prop="C09", expect="R09.2|both-directions|merge_value_type", file="crates/wac-types/src/aggregator.rs",
+         old="""        checker.is_subtype(
+            ItemKind::Value(existing),
+            &self.types,
+            ItemKind::Value(ty),
+            types,
+        )?;
+
+        Ok(())""",
+         new="""        Ok(())"""),
+    dict(id="c09-no-retarget", prop="C09", expect="R09.3|retarget-redirects", file="crates/wac-types/src/aggregator.rs",
+         old="""                for redirect in self.name_redirects.values_mut() {
+                    if *redirect == existing_name {
+                        *redirect = name.to_string();
+                    }
+                }
+""", new=""""""),
+    # ---------------- C10
+    dict(id="c10-eager-instantiate", prop="C10", expect="R10.3|", file="crates/wac-graph/src/plug.rs",
+         old="""        let mut plug_instantiation = None;
+        for (plug_name, socket_name) in plug_exports {
+            log::debug!("using export `{plug_name}` for plug");
+            let plug_instantiation =
+                *plug_instantiation.get_or_insert_with(|| graph.instantiate(plug));""",
+         new="""        let plug_instantiation = graph.instantiate(plug);
+        for (plug_name, socket_name) in plug_exports {
+            log::debug!("using export `{plug_name}` for plug");"""),
+    dict(id="c10-drop-subtype-filter", prop="C10", expect="R10.2|record-on-ok", file="crates/wac-graph/src/plug.rs",
+         old="""                if checker
+                    .is_subtype(*plug_ty, graph.types(), *socket_ty, graph.types())
+                    .is_ok()
+                {
+                    plug_exports.push((name.clone(), socket_name));
+                }""",
+         new="""                let _ = checker.is_subtype(*plug_ty, graph.types(), *socket_ty, graph.types());
+                plug_exports.push((name.clone(), socket_name));"""),
+    dict(id="c10-swap-subtype-args", prop="C10", expect="R10.2|direction", file="crates/wac-graph/src/plug.rs",
+         old="""                    .is_subtype(*plug_ty, graph.types(), *socket_ty, graph.types())""",
+         new="""                    .is_subtype(*socket_ty, graph.types(), *plug_ty, graph.types())"""),
+    dict(id="c10-ignore-argument-error", prop="C10", expect="R10.6|propagate|set_instantiation_argument", file="crates/wac-graph/src/plug.rs",
+         old="""            graph
+                .set_instantiation_argument(socket_instantiation, &socket_name, export)
+                .map_err(|err| PlugError::GraphError { source: err.into() })?;""",
+         new="""            let _ = graph.set_instantiation_argument(socket_instantiation, &socket_name, export);"""),
 ]
